@@ -8,6 +8,9 @@ Import ListNotations.
 Open Scope N_scope.
 Open Scope bool_scope.
 
+(* [DiskWriterFs.is_err], stated here on the result type of Model/Fs.v (convertible) *)
+Definition rerr (r : result) : bool := match r with RErr _ => true | _ => false end.
+
 (* ---------------- path strings ---------------- *)
 Definition relpath (p : bytes) (cs : list bytes) : Prop :=
   p <> [] /\ is_abs p = false /\ ends_with_sep p = false /\ pcs p = cs /\ cs <> [] /\ Forall okname cs.
@@ -301,7 +304,7 @@ Lemma step_move b f pre dd n1 n2 i :
   let f1 := del_ent f dd n1 in
   let f2 := match dir_of f1 dd with Some (_, es) => set_ents f1 dd (bset n2 i es) | None => f1 end in
   let f3 := if is_dir f i then set_parent f2 i dd else f2 in
-  step (T2 dd n1 n2) b f f3 /\ blookup n2 (ents f3 dd) = Some i.
+  step (T2 dd n1 n2) b f f3 /\ blookup n2 (ents f3 dd) = Some i /\ blookup n1 (ents f3 dd) = None.
 Proof.
   intros W Hb Hw Hd Hn2 Hne Hb1 f1 f2 f3.
   destruct (dentry_reach f pre dd n1 i Hw Hb1) as [Rdd Ri].
@@ -345,6 +348,10 @@ Proof.
   assert (Hb2 : blookup n2 (ents f2 dd) = Some i).
   { rewrite E2. destruct (dir_of_get f dd p es Hdir) as [m Hg]. rewrite (set_ents_get f dd p es m _ Hg).
     unfold ents, dir_of. rewrite get_put_same. apply blookup_bset_same. }
+  assert (Hb3 : blookup n1 (ents f2 dd) = None).
+  { rewrite E2. destruct (dir_of_get f dd p es Hdir) as [m Hg]. rewrite (set_ents_get f dd p es m _ Hg).
+    unfold ents, dir_of. rewrite get_put_same. rewrite blookup_bset_other by auto.
+    apply blookup_bremove_same. exact Hnd. }
   unfold f3. destruct (is_dir f i) eqn:Hdi; [|split; auto].
   assert (W2 : wf f2) by (apply (st_wf _ _ _ _ _ S2)).
   assert (Hw2 : rwalk f2 D pre = Some dd) by (apply (rwalk_parent_kept b f f2 pre dd n1 n2); auto).
@@ -353,7 +360,7 @@ Proof.
   { apply (step_set_parent D); auto. pose proof (st_next _ _ _ _ _ S2). lia. }
   split.
   - apply (step_trans D _ b f f2); auto. apply (step_weaken D (fun _ _ => False)); [tauto|exact S3].
-  - rewrite (st_dent _ _ _ _ _ S3 dd n2); auto. apply (reach_lt D f2 dd W2 Rdd2).
+  - rewrite !(st_dent _ _ _ _ _ S3 dd); auto; apply (reach_lt D f2 dd W2 Rdd2).
 Qed.
 
 
@@ -393,7 +400,7 @@ Hypothesis Hb : b <= f_next f.
 Hypothesis Hc : c_cwd c = D.
 Hypothesis Hrel : relpath p (pre ++ [n]).
 Hypothesis Hsafe : safe f D pre.
-Hypothesis HT : forall dd, rwalk f D pre = Some dd -> T dd n.
+Hypothesis HT : forall dd, rwalk f D pre = Some dd -> is_dir f dd = true -> T dd n.
 
 Ltac clear_others := try clear HT; try clear Hb; try clear W.
 Ltac clear_safe := try clear Hsafe.
@@ -476,14 +483,14 @@ Lemma create_common isdir k mode : leaf {| i_kind := k; i_meta := new_meta f D i
   step T b f f' /\ created f' k /\ snd (create_at f {| l_dir := dd; l_name := n; l_ino := None |} isdir k mode) = f_next f.
 Proof.
   intros Hl dd Hw Hd Hbl f'.
-  destruct (step_create_at T b f pre n dd isdir k mode W Hb Hw Hd call_okname Hbl (HT dd Hw)) as (S & B1 & B2 & B3).
+  destruct (step_create_at T b f pre n dd isdir k mode W Hb Hw Hd call_okname Hbl (HT dd Hw Hd)) as (S & B1 & B2 & B3).
   - unfold leaf in *. simpl in *. exact Hl.
   - split; auto. split; auto. exists dd, (new_meta f dd isdir mode). auto.
 Qed.
 
 Lemma sys_mkdir_step mode :
   let f' := fst (sys_mkdir c f p mode) in
-  step T b f f' /\ (snd (sys_mkdir c f p mode) = ROk -> exists d0, created f' (KDir d0 [])).
+  step T b f f' /\ (rerr (snd (sys_mkdir c f p mode)) = false -> exists d0, created f' (KDir d0 [])).
 Proof.
   unfold sys_mkdir. destruct resolve_nofollow as [[e He]|(dd & Hw & Hd & Hr)].
   - rewrite He. simpl. split; [apply step_refl; auto|discriminate].
@@ -495,7 +502,7 @@ Qed.
 
 Lemma sys_mknod_step typ mode rdev :
   let f' := fst (sys_mknod c f p typ mode rdev) in
-  step T b f f' /\ (snd (sys_mknod c f p typ mode rdev) = ROk -> exists t r, created f' (KSpecial t r)).
+  step T b f f' /\ (rerr (snd (sys_mknod c f p typ mode rdev)) = false -> exists t r, created f' (KSpecial t r)).
 Proof.
   unfold sys_mknod. destruct resolve_nofollow as [[e He]|(dd & Hw & Hd & Hr)].
   - rewrite He. simpl. split; [apply step_refl; auto|discriminate].
@@ -508,7 +515,7 @@ Qed.
 
 Lemma sys_symlink_step target :
   let f' := fst (sys_symlink c f target p) in
-  step T b f f' /\ (snd (sys_symlink c f target p) = ROk -> created f' (KLink target)).
+  step T b f f' /\ (rerr (snd (sys_symlink c f target p)) = false -> created f' (KLink target)).
 Proof.
   unfold sys_symlink. destruct target as [|t0 tr]; [simpl; split; [apply step_refl; auto|discriminate]|].
   destruct (has_nul (t0 :: tr)); [simpl; split; [apply step_refl; auto|discriminate]|].
@@ -524,20 +531,20 @@ Qed.
 Lemma sys_open_creat_step mode : safe f D (pre ++ [n]) ->
   let f' := fst (sys_open_wronly c f p true mode) in
   step T b f f' /\
-  (forall i, snd (sys_open_wronly c f p true mode) = RFd i ->
-     (f' = f /\ exists dd nd, rwalk f D pre = Some dd /\ blookup n (ents f dd) = Some i /\ get f i = Some nd /\ ktag (i_kind nd) = 1)
-     \/ (i = f_next f /\ created f' (KFile []))).
+  (rerr (snd (sys_open_wronly c f p true mode)) = false ->
+   exists i, snd (sys_open_wronly c f p true mode) = RFd i /\
+     ((f' = f /\ exists dd nd, rwalk f D pre = Some dd /\ blookup n (ents f dd) = Some i /\ get f i = Some nd /\ ktag (i_kind nd) = 1)
+      \/ (i = f_next f /\ created f' (KFile [])))).
 Proof.
   intros Hfull. unfold sys_open_wronly. destruct (resolve_follow Hfull) as [[e He]|(dd & Hw & Hd & Hr)].
   - rewrite He. simpl. split; [apply step_refl; auto|discriminate].
   - rewrite Hr. cbn [l_ino l_dir]. destruct (blookup n (ents f dd)) as [i|] eqn:Eb.
     + destruct (get f i) as [[k m]|] eqn:Eg; [destruct k|]; simpl; (split; [apply step_refl; auto|]); try discriminate.
-      intros i' H. inversion H; subst. left. split; auto. exists dd, {| i_kind := KFile data; i_meta := m |}. auto.
+      intros _. exists i. split; auto. left. split; auto. exists dd, {| i_kind := KFile data; i_meta := m |}. auto.
     + destruct (create_common false (KFile []) (N.land mode perm_mask) I dd Hw Hd Eb) as (S & C & E).
       destruct (create_at f {| l_dir := dd; l_name := n; l_ino := None |} false (KFile []) (N.land mode perm_mask)) as [f1 i1] eqn:Ec.
-      cbn [fst snd] in *. split; auto. intros i' H. inversion H; subst. right. auto.
+      cbn [fst snd] in *. split; auto. intros _. exists i1. split; auto.
 Qed.
-
 
 (* ---- metadata calls ---- *)
 (* the inode the name leads to was made by the running operation, or is a directory *)
@@ -569,7 +576,8 @@ Proof using Hc Hrel.
 Qed.
 
 Lemma sys_lchown_step u g : target_ok -> step T b f (fst (sys_lchown c f p u g)).
-Proof.
+Proof using W Hb Hc Hrel Hsafe.
+  try clear HT.
   intros Ht. unfold sys_lchown.
   destruct resolve_ino_nofollow_cases as [[e He]|(dd & i & Hw & Hd & Hbl & Hr)]; rewrite ?He, ?Hr; [apply step_refl; auto|].
   destruct (get f i) as [nd|] eqn:Eg; [|apply step_refl; auto].
@@ -577,7 +585,8 @@ Proof.
 Qed.
 
 Lemma sys_utimens_step t : target_ok -> step T b f (fst (sys_utimens c f p t)).
-Proof.
+Proof using W Hb Hc Hrel Hsafe.
+  try clear HT.
   intros Ht. unfold sys_utimens.
   destruct resolve_ino_nofollow_cases as [[e He]|(dd & i & Hw & Hd & Hbl & Hr)]; rewrite ?He, ?Hr; [apply step_refl; auto|].
   destruct (get f i) as [nd|] eqn:Eg; [|apply step_refl; auto].
@@ -585,7 +594,8 @@ Proof.
 Qed.
 
 Lemma sys_lsetxattr_step key value : target_ok -> step T b f (fst (sys_lsetxattr c f p key value)).
-Proof.
+Proof using W Hb Hc Hrel Hsafe.
+  try clear HT.
   intros Ht. unfold sys_lsetxattr.
   destruct resolve_ino_nofollow_cases as [[e He]|(dd & i & Hw & Hd & Hbl & Hr)]; rewrite ?He, ?Hr; [apply step_refl; auto|].
   destruct (get f i) as [nd|] eqn:Eg; [|apply step_refl; auto].
@@ -596,7 +606,8 @@ Qed.
 
 (* chmod follows the final component *)
 Lemma sys_chmod_step mode : safe f D (pre ++ [n]) -> target_ok -> step T b f (fst (sys_chmod c f p mode)).
-Proof.
+Proof using W Hb Hc Hrel Hsafe.
+  try clear HT.
   intros Hfull Ht. unfold sys_chmod.
   destruct (resolve_ino_follow_cases Hfull) as [[e He]|(dd & i & Hw & Hd & Hbl & Hr)]; rewrite ?He, ?Hr; [apply step_refl; auto|].
   destruct (get f i) as [nd|] eqn:Eg; [|apply step_refl; auto].
@@ -604,23 +615,30 @@ Proof.
 Qed.
 
 (* ---- removing calls ---- *)
-Lemma sys_remove_all_step : step T b f (fst (sys_remove_all c f p)).
+Lemma sys_remove_all_step :
+  let f' := fst (sys_remove_all c f p) in
+  step T b f f' /\ (f' = f \/ forall dd, rwalk f D pre = Some dd -> blookup n (ents f' dd) = None).
 Proof.
   rewrite sys_remove_all_unfold by (destruct Hrel; auto).
-  destruct (ends_with_dot p); [apply step_refl; auto|].
+  destruct (ends_with_dot p); [split; [apply step_refl; auto|left; reflexivity]|].
   destruct resolve_nofollow as [[e He]|(dd & Hw & Hd & Hr)].
-  - rewrite He. destruct e; apply step_refl; auto.
-  - rewrite Hr. cbn [l_ino l_dir l_name]. destruct (blookup n (ents f dd)); [|apply step_refl; auto].
-    rewrite nil_name. cbn [fst]. apply (step_del_ent T b f pre n dd); auto.
+  - rewrite He. destruct e; (split; [apply step_refl; auto|left; reflexivity]).
+  - rewrite Hr. cbn [l_ino l_dir l_name]. destruct (blookup n (ents f dd)); [|split; [apply step_refl; auto|left; reflexivity]].
+    rewrite nil_name. cbn [fst].
+    destruct (step_del_ent T b f pre n dd W Hb Hw Hd (HT dd Hw Hd)) as [S B]. split; auto.
+    right. intros dd' Hw'. rewrite Hw in Hw'. inversion Hw'; subst. exact B.
 Qed.
 
-Lemma sys_unlink_step : step T b f (fst (sys_unlink c f p)).
+Lemma sys_unlink_step :
+  let f' := fst (sys_unlink c f p) in
+  step T b f f' /\ (rerr (snd (sys_unlink c f p)) = false -> forall dd, rwalk f D pre = Some dd -> blookup n (ents f' dd) = None).
 Proof.
   unfold sys_unlink. destruct resolve_nofollow as [[e He]|(dd & Hw & Hd & Hr)].
-  - rewrite He. apply step_refl; auto.
-  - rewrite Hr. cbn [l_ino l_dir l_name]. destruct (blookup n (ents f dd)) as [i|]; [|apply step_refl; auto].
-    destruct (is_dir f i); [apply step_refl; auto|].
-    cbn [fst]. apply (step_del_ent T b f pre n dd); auto.
+  - rewrite He. simpl. split; [apply step_refl; auto|discriminate].
+  - rewrite Hr. cbn [l_ino l_dir l_name]. destruct (blookup n (ents f dd)) as [i|]; [|simpl; split; [apply step_refl; auto|discriminate]].
+    destruct (is_dir f i); [simpl; split; [apply step_refl; auto|discriminate]|].
+    cbn [fst snd]. destruct (step_del_ent T b f pre n dd W Hb Hw Hd (HT dd Hw Hd)) as [S B]. split; auto.
+    intros _ dd' Hw'. rewrite Hw in Hw'. inversion Hw'; subst. exact B.
 Qed.
 
 (* ---- open without O_CREAT: nothing changes; the descriptor is the file the name leads to ---- *)
@@ -660,11 +678,11 @@ Qed.
 Lemma sys_link_step (T : N -> bytes -> Prop) b c f oldp newp pre1 n1 pre n :
   wf f -> b <= f_next f -> c_cwd c = D ->
   relpath oldp (pre1 ++ [n1]) -> relpath newp (pre ++ [n]) -> safe f D pre1 -> safe f D pre ->
-  (forall dd, rwalk f D pre = Some dd -> T dd n) ->
+  (forall dd, rwalk f D pre = Some dd -> is_dir f dd = true -> T dd n) ->
   let f' := fst (sys_link c f oldp newp) in
   step T b f f' /\
-  (snd (sys_link c f oldp newp) = ROk ->
-   exists dd dd1 i, rwalk f D pre = Some dd /\ rwalk f D pre1 = Some dd1 /\ blookup n1 (ents f dd1) = Some i
+  (rerr (snd (sys_link c f oldp newp)) = false ->
+   exists dd dd1 i, rwalk f D pre = Some dd /\ is_dir f dd = true /\ rwalk f D pre1 = Some dd1 /\ blookup n1 (ents f dd1) = Some i
                     /\ blookup n (ents f dd) = None /\ blookup n (ents f' dd) = Some i).
 Proof.
   intros W Hb Hc Ho Hn S1 S2 HT. unfold sys_link.
@@ -675,9 +693,9 @@ Proof.
   cbn [l_ino l_dir l_name]. destruct (blookup n (ents f dd)) eqn:Eb; [simpl; split; [apply step_refl; auto|discriminate]|].
   destruct (is_dir f i) eqn:Hdi; [simpl; split; [apply step_refl; auto|discriminate]|].
   destruct (dentry_reach f pre1 dd1 n1 i Hw1 Hbl1) as [Rd1 Ri].
-  destruct (step_add_link T b f pre n dd i W Hb Hw Hd (call_okname newp pre n Hn) Eb (HT dd Hw) Ri Hdi
+  destruct (step_add_link T b f pre n dd i W Hb Hw Hd (call_okname newp pre n Hn) Eb (HT dd Hw Hd) Ri Hdi
               (dentry_notD f dd1 n1 i W Rd1 Hbl1)) as [S B].
-  cbn [fst snd]. split; auto. intros _. exists dd, dd1, i. auto.
+  cbn [fst snd]. split; auto. intros _. exists dd, dd1, i. repeat split; auto.
 Qed.
 
 (* ---- rename inside one directory ---- *)
@@ -687,8 +705,10 @@ Lemma sys_rename_step b c f oldp newp pre n1 n2 :
   let f' := fst (sys_rename c f oldp newp) in
   forall dd, rwalk f D pre = Some dd ->
   step (T2 dd n1 n2) b f f' /\
-  (snd (sys_rename c f oldp newp) = ROk ->
-   exists i, blookup n1 (ents f dd) = Some i /\ blookup n2 (ents f' dd) = Some i).
+  (rerr (snd (sys_rename c f oldp newp)) = false ->
+   exists i, blookup n1 (ents f dd) = Some i /\ blookup n2 (ents f' dd) = Some i
+             /\ (blookup n2 (ents f dd) <> Some i -> blookup n1 (ents f' dd) = None)
+             /\ resolve c f oldp false = inl {| l_dir := dd; l_name := n1; l_ino := Some i |}).
 Proof.
   intros W Hb Hc Ho Hn S Hne f' dd Hw. unfold f', sys_rename.
   destruct (resolve_nofollow c f oldp pre n1 Hc Ho S) as [[e He]|(dd1 & Hw1 & Hd1 & Hr1)];
@@ -699,20 +719,22 @@ Proof.
   cbn [l_ino l_dir l_name].
   rewrite (nil_name oldp pre n1 Ho), (nil_name newp pre n2 Hn). cbn [orb].
   destruct (blookup n1 (ents f dd)) as [i|] eqn:Eb1; [|simpl; split; [apply step_refl; auto|discriminate]].
+  assert (Hres : resolve c f oldp false = inl {| l_dir := dd; l_name := n1; l_ino := Some i |}) by exact Hr1.
   destruct (is_dir f i && is_ancestor rfuel f i dd); [simpl; split; [apply step_refl; auto|discriminate]|].
   pose proof (step_move b f pre dd n1 n2 i W Hb Hw Hd1 (call_okname newp pre n2 Hn) Hne Eb1) as M.
-  cbv zeta in M. destruct M as [M1 M2].
+  cbv zeta in M. destruct M as (M1 & M2 & M3).
   destruct (blookup n2 (ents f dd)) as [j|] eqn:Eb2.
   - destruct (is_dir f j && is_ancestor rfuel f j dd); [simpl; split; [apply step_refl; auto|discriminate]|].
     destruct (N.eqb i j) eqn:Eij.
-    + apply N.eqb_eq in Eij. subst j. simpl. split; [apply step_refl; auto|]. intros _. exists i. auto.
+    + apply N.eqb_eq in Eij. subst j. simpl. split; [apply step_refl; auto|]. intros _. exists i.
+      split; auto. split; auto. split; auto. intros H. congruence.
     + destruct (dir_of f j) as [[pj esj]|].
       * destruct (negb (is_dir f i)); [simpl; split; [apply step_refl; auto|discriminate]|].
         destruct (is_nil esj); [|simpl; split; [apply step_refl; auto|discriminate]].
-        cbn [fst snd]. split; auto. intros _. exists i. auto.
+        cbn [fst snd]. split; auto. intros _. exists i. repeat split; auto.
       * destruct (is_dir f i); [simpl; split; [apply step_refl; auto|discriminate]|].
-        cbn [fst snd]. split; auto. intros _. exists i. auto.
-  - cbn [fst snd]. split; auto. intros _. exists i. auto.
+        cbn [fst snd]. split; auto. intros _. exists i. repeat split; auto.
+  - cbn [fst snd]. split; auto. intros _. exists i. repeat split; auto.
 Qed.
 
 End Sys.
